@@ -303,6 +303,13 @@ def run(chk, ctx):
            'module aliases and for mutating calls on class-level tables' %
            nfun, nontrivial=True)
     # ---- E: ambient state
+    from .c15 import scan_tz_calls
+    _ntz, tzhits = scan_tz_calls(prog, prog.modules.values())
+    chk.ob('C16.E', 'process time zone', not tzhits,
+           'no call consults the process time zone' if not tzhits else
+           'results depend on the process time zone, not only on the '
+           'arguments: %s' % '; '.join('%s at %s' % (w, s_)
+                                       for s_, w in tzhits[:2]))
     n_ext, amb = scan_ambient(prog, prog.modules.values())
     chk.ob('C16.E', 'library names used by the package', not amb,
            '%d references to library names, %d to ambient state' %
@@ -386,9 +393,12 @@ def run(chk, ctx):
     for b in shared_effects(f0.it):
         bad_effects.append(('frame.unmarshal', b))
     for r in f0.rets:
-        if f0.kind_of(r) in ('protocol', 'header', 'body', 'heartbeat'):
+        if f0.kind_of(r) in ('protocol', 'header', 'body', 'heartbeat') or \
+                isinstance(r.objv, ClassInfo):
             check_fresh(chk, f0, r, 'frame.unmarshal -> %s' %
-                        (r.cls.short if r.cls else '?'))
+                        (r.cls.short if r.cls else (
+                            r.objv.short if isinstance(r.objv, ClassInfo)
+                            else '?')))
     for mod in ('encode', 'decode'):
         for fi in prog.module(mod).functions.values():
             if fi.short == 'encode.support_deprecated_rabbitmq':
@@ -558,6 +568,9 @@ def check_fresh(chk, f, r, cons, rule='C16.F'):
                 for a in t.args:
                     if isinstance(a, T.Ref):
                         visit(a, path)
+    if isinstance(r.objv, ClassInfo):
+        bad.append('result is the class %s itself, not an instance: one '
+                   'object shared by every call' % r.objv.short)
     visit(r.objv, 'result')
     chk.ob(rule, cons, not bad,
            '%d objects reachable from the result, all created in this call'
